@@ -73,6 +73,7 @@ type tcase struct {
 	Drop   bool   `json:"drop"`
 	MaxAge int    `json:"maxAge"` // clock ticks
 	Att0   int    `json:"att0"`
+	Pre    int    `json:"pre"` // batches 1..pre are in the queue before run() / the first SendWrite (no notification)
 	SegCap int    `json:"segCap"`
 	Steps  []step `json:"steps"`
 	Conc   int    `json:"conc"` // concretisation number (body length / content), combined with the seed
@@ -591,6 +592,11 @@ func runStepsInner(c *tcase, env *rt.Env) rt.Result {
 		return q.Append(bd)
 	}
 	rm.enqueue = appendBatch
+	for b := 1; b <= c.Pre; b++ {
+		if err := appendBatch(b); err != nil {
+			return rt.Infra("append (pre): " + err.Error())
+		}
+	}
 
 	var drift []string
 	addDrift := func(d string) {
@@ -780,8 +786,34 @@ func runE2E(c *tcase, env *rt.Env) rt.Result {
 	qpath := filepath.Join(base, "replicationq")
 	qm := replications.VerifNewDurableQueueManager(zap.NewNop(), qpath, metrics.NewReplicationsMetrics(), rm)
 	id := platform.ID(7)
-	if err := qm.InitializeQueue(id, 1<<30, platform.ID(1), platform.ID(2), 0); err != nil {
-		return rt.Infra("InitializeQueue: " + err.Error())
+	led := newLedger(c.Drop)
+	var lmu sync.Mutex
+	if c.Pre > 0 {
+		// batches left in the queue directory by an earlier process: written with a plain durable queue, then the manager
+		// starts on that directory (StartReplicationQueues) and run() finds them in its start-up pass
+		qdir := filepath.Join(qpath, id.String())
+		if err := os.MkdirAll(qdir, 0o777); err != nil {
+			return rt.Infra(err.Error())
+		}
+		pq, err := durablequeue.NewQueue(qdir, 1<<30, durablequeue.DefaultSegmentSize, &durablequeue.SharedCount{},
+			durablequeue.MaxWritesPending, func([]byte) error { return nil })
+		if err != nil {
+			return rt.Infra("NewQueue (pre): " + err.Error())
+		}
+		if err := pq.Open(); err != nil {
+			return rt.Infra("Open (pre): " + err.Error())
+		}
+		for b := 1; b <= c.Pre; b++ {
+			bd := body(b, L, env.Seed, c.Conc)
+			led.enq = append(led.enq, b)
+			led.bodies[b] = bd
+			if err := pq.Append(bd); err != nil {
+				return rt.Infra("Append (pre): " + err.Error())
+			}
+		}
+		if err := pq.Close(); err != nil {
+			return rt.Infra("Close (pre): " + err.Error())
+		}
 	}
 	closed := false
 	defer func() {
@@ -789,13 +821,8 @@ func runE2E(c *tcase, env *rt.Env) rt.Result {
 			qm.CloseAll()
 		}
 	}()
-	vq := replications.VerifQueueOf(qm, id)
-	if vq == nil {
-		return rt.Infra("queue not registered")
-	}
-	rm.setTO = vq.SetClientTimeout
-	led := newLedger(c.Drop)
-	var lmu sync.Mutex
+	// run() may post as soon as the queue is started, so the remote is complete before that; e2e histories have no
+	// timeouts, hence the writer keeps its production client timeout (2 min)
 	enqueue := func(b int) error {
 		bd := body(b, L, env.Seed, c.Conc)
 		lmu.Lock()
@@ -805,6 +832,18 @@ func runE2E(c *tcase, env *rt.Env) rt.Result {
 		return qm.EnqueueData(id, bd, 1)
 	}
 	rm.enqueue = enqueue
+	if c.Pre > 0 {
+		tracked := map[platform.ID]*influxdb.TrackedReplication{id: {MaxQueueSizeBytes: 1 << 30, MaxAgeSeconds: 0,
+			OrgID: platform.ID(1), LocalBucketID: platform.ID(2)}}
+		if err := qm.StartReplicationQueues(tracked); err != nil {
+			return rt.Infra("StartReplicationQueues: " + err.Error())
+		}
+	} else if err := qm.InitializeQueue(id, 1<<30, platform.ID(1), platform.ID(2), 0); err != nil {
+		return rt.Infra("InitializeQueue: " + err.Error())
+	}
+	if replications.VerifQueueOf(qm, id) == nil {
+		return rt.Infra("queue not registered")
+	}
 	slack := 60 * time.Second
 	if c.SlackMs > 0 {
 		slack = time.Duration(c.SlackMs) * time.Millisecond
